@@ -82,6 +82,7 @@ func cmdFunc(args []string) int {
 	dump := fs.String("dump", "", "dump SMT of obligations whose name contains this")
 	timeout := fs.Duration("timeout", 10*time.Second, "per-obligation timeout")
 	verbose := fs.Bool("v", false, "verbose")
+	split := fs.String("split", "", "for failed obligations whose name contains this: prove each conjunct separately")
 	evals := fs.String("eval", "", "semicolon-separated spec expressions to evaluate in the model of each failed obligation (post-state env)")
 	name := args[0]
 	fs.Parse(args[1:])
@@ -155,6 +156,15 @@ func cmdFunc(args []string) int {
 					for i, n := range names {
 						fmt.Printf("          eval %s = %s\n", n, vals[fmt.Sprintf("w!%d", i)])
 					}
+				}
+			}
+			if *split != "" && strings.Contains(r.Obl.Name, *split) && r.Obl.Cond.Op == "and" {
+				for i, c := range r.Obl.Cond.Args {
+					o2 := *r.Obl
+					o2.Cond = c
+					q, _, _ := x.buildQuery(&o2, false, false)
+					sr := Solve(q, "split", *timeout)
+					fmt.Printf("          conjunct %d: %s (%s %.1fs) %s\n", i, sr.Status, sr.Solver, sr.Seconds, truncateStr(c.String(), 160))
 				}
 			}
 			if r.Status == "unknown" && strings.Contains(r.Raw, "error") {
